@@ -267,7 +267,14 @@ def _run_rule_forked(r, ctx):
         try:
             out = r(ctx)
         except AnalysisError as e:
-            out, err = None, (err or e)
+            from .pm import Missing
+            if isinstance(e, Missing):
+                mres = Result(e.rule, 'statement the obligation is about')
+                mres.fail(ctx.finding(e.rule, e.func, getattr(
+                    e.func, 'node', None), e.message, construct=e.construct))
+                out = [mres]
+            else:
+                out, err = None, (err or e)
         finally:
             assign, pending = FORK.end()
         stack.extend(pending)
